@@ -203,12 +203,11 @@ class Gen:
         self.in_lambda += 1
         saved_loop = self.loop_depth
         self.loop_depth = 0
+        # a default is evaluated before any parameter is bound: it may only mention outer names
+        default = self.int_expr(2) if arity > 0 and self.rng.random() < 0.25 else None
         for k in range(arity):
             p = self.fresh("p")
-            default = None
-            if k == arity - 1 and self.rng.random() < 0.25:
-                default = self.int_expr(2)
-            ps.append(g.param(p, default))
+            ps.append(g.param(p, default if k == arity - 1 else None))
             self.declare(p, "int")
         splat = False
         if arity == 1 and self.rng.random() < 0.15 and ps[0]["d"]["n"] == "none":
